@@ -142,6 +142,7 @@ class Engine:
     wall = {"quick": 300, "thorough": 600}
     selftest_n = {"quick": 24, "thorough": 96}
     chunk = 50
+    isolate = True      # every run in a child forked from the pristine engine process (annet keeps process-global caches)
     minimise_budget = {"quick": 500, "thorough": 2000}
     rule = ("one run = one seeded history of the real `annet diff` and `annet deploy` for a whole-file (PC) device: 1-5 Entire "
             "generators (paths with collisions, pairwise distinct priorities incl. the class default, outputs as strings / tuples "
